@@ -7,4 +7,4 @@ tier = sys.argv[4] if len(sys.argv) > 4 else 'quick'
 h = [x for x in REGISTRY[prop]['harnesses']() if x.name == hname][0]
 driver.funcs(h.with_clvmr)
 r = driver.run_case((h, case, tier, [], None))
-print(json.dumps(case), r['paths'], 'obl', r['obligations'], 'dis', r['discharged'], 'viol', len(r['violations']), 'inc', r['inconclusive'][:2], 'err', r['error'], '%.1fs' % r['wall_s'])
+print([ (v['ob'], v['inputs'], v.get('predicted')) for v in r['violations'][:3]]); print(json.dumps(case), r['paths'], 'obl', r['obligations'], 'dis', r['discharged'], 'viol', len(r['violations']), 'inc', r['inconclusive'][:2], 'err', r['error'], '%.1fs' % r['wall_s'])
